@@ -91,7 +91,7 @@ struct Scenario {
 static inline uint64_t fnv(uint64_t h, const void *p, size_t n) { const unsigned char *s = (const unsigned char *) p; for (size_t i = 0; i < n; i++) { h ^= s[i]; h *= 1099511628211ULL; } return h; }
 static inline uint64_t fnvs(uint64_t h, const std::string &s) { return fnv(h, s.data(), s.size()); }
 
-struct HarnessError { std::string msg; };
+struct HarnessError { std::string msg; bool starved = false; };   // starved: a simulated process got no CPU for minutes (overloaded machine): the execution may be tried again
 struct Hang { std::string key, text; };   // a simulated program that stops making progress: reported as a violation (after the usual double replay), not as a harness error
 inline void Scenario::on_livelock(World &, Proc &p) { std::string prog = p.name.substr(p.name.rfind('/') == std::string::npos ? 0 : p.name.rfind('/') + 1); throw Hang{"hang:busy-loop:" + prog, p.name + " repeats the same system calls with the same results for ever while no other process can run (busy loop)"}; }
 
@@ -198,7 +198,7 @@ struct World {
       if (cpu_at_start < 0 && waited_ms >= 1000) cpu_at_start = cpu_ms_of(p.realpid);   // measured from the first second of waiting on
       if (waited_ms > hang_ms && waited_ms % 1000 == 0 && cpu_ms_of(p.realpid) - cpu_at_start < hang_ms / 2) {
         // not computing: the process is starved by the load on this machine (or stopped); that is the harness's problem, never a verdict
-        if (waited_ms > 600000) throw HarnessError{"simulated process " + p.name + " made no request for 600 s without using the CPU (slot " + std::to_string(p.slot) + ")"};
+        if (waited_ms > 600000) throw HarnessError{"simulated process " + p.name + " made no request for 600 s without using the CPU (slot " + std::to_string(p.slot) + ")", true};
       } else if (waited_ms > hang_ms && waited_ms % 1000 == 0) {
         // the program computes (or sleeps in a call the model does not know) without ever asking the kernel for anything: every program of the
         // suite is I/O bound, so this is an endless loop in user space
